@@ -241,6 +241,7 @@ class Program:
         self.repo = repo
         self.modules: dict[str, ModuleInfo] = {}
         self.unrolled: list[str] = []
+        self.shielded: list[tuple[str, int, str]] = []  # (file, line, inner call) of every asyncio.shield(...) read as its inner call
         self._reloc: dict[str, str] = {}
         self.relocated: dict[str, str] = {}
         self.flattened: list[str] = []
@@ -276,6 +277,8 @@ class Program:
                 except SyntaxError as exc:
                     raise AnalysisError(f"{rel}: does not compile: {exc}") from exc
                 unrolled = unroll_literal_tables(tree)
+                for ln, txt in see_through_shield(tree):
+                    self.shielded.append((rel, ln, txt))
                 normalise_augassign(tree)
                 normalise_get_default(tree)
                 split_annassign(tree)
@@ -751,6 +754,12 @@ ATTR_ROLE_TABLE: list[tuple[str, str, object]] = [
     ("repid.dependencies.message_dependency.MessageDependency", "__lazy_result_callback", lambda c: _one(a for a, v in _self_assigns(c, "__init__") if isinstance(v, ast.Lambda))),
     ("repid.connections.in_memory.consumer._InMemoryConsumer", "_queue", lambda c: _one(a for a, v in _self_assigns(c, "__init__") if "queues[" in unparse(v))),
     ("repid.connections.in_memory.consumer._InMemoryConsumer", "_paused", lambda c: _one(a for a, v in _self_assigns(c, "__init__") if unparse(v).endswith("Lock()"))),
+    ("repid.connections.rabbitmq.consumer._RabbitConsumer", "__is_paused", lambda c: _one(a for a, v in _self_assigns(c, "pause") if isinstance(v, ast.Constant) and v.value is True)),
+    ("repid.connections.rabbitmq.consumer._RabbitConsumer", "__is_consuming", lambda c: _one(a for a, v in _self_assigns(c, "start") if isinstance(v, ast.Constant) and v.value is True)),
+    # the connection an entry-point object works on: `self.<x> = _connection or Repid.get_magic_connection()`
+    ("repid.job.Job", "_conn", lambda c: _one(a for a, v in _self_assigns(c, "__init__") if "get_magic_connection" in unparse(v))),
+    ("repid.queue.Queue", "_conn", lambda c: _one(a for a, v in _self_assigns(c, "__init__") if "get_magic_connection" in unparse(v))),
+    ("repid.worker.Worker", "_conn", lambda c: _one(a for a, v in _self_assigns(c, "__init__") if "get_magic_connection" in unparse(v))),
 ]
 
 
@@ -962,6 +971,23 @@ def fold_constants(prog: "Program") -> list[str]:
     return sorted(set(folded))
 
 
+PURE_NAME_CONSTRUCTORS = {"mnc", "qnc"}
+
+
+def _pure_name_call(call: ast.Call, binds: dict, params: set) -> bool:
+    """mnc(...) / qnc(...) / self.qnc(...) whose arguments are parameters, once-bound locals, attribute chains of those, or literals."""
+    name = call.func.id if isinstance(call.func, ast.Name) else call.func.attr if isinstance(call.func, ast.Attribute) else None
+    if name not in PURE_NAME_CONSTRUCTORS:
+        return False
+    for a in list(call.args) + [k.value for k in call.keywords]:
+        for x in ast.walk(a):
+            if isinstance(x, (ast.Call, ast.Await, ast.NamedExpr, ast.Starred)):
+                return False
+            if isinstance(x, ast.Name) and x.id not in params and binds.get(x.id, 0) > 1:
+                return False
+    return True
+
+
 def inline_attribute_aliases(prog: "Program") -> list[str]:
     """Normalisation: a local bound exactly once, by a plain statement of the function's own body (not in a loop / branch), to a pure attribute chain
     rooted at `self`, `cls` or a parameter (`limiter = self._limiter`, `broker = self._conn.message_broker`) is read as that chain, provided the
@@ -998,12 +1024,19 @@ def inline_attribute_aliases(prog: "Program") -> list[str]:
                 tg, val = st.targets[0].id, st.value
             elif isinstance(st, ast.AnnAssign) and isinstance(st.target, ast.Name) and st.value is not None:
                 tg, val = st.target.id, st.value
+            if tg is not None and binds.get(tg) == 1 and tg not in params and isinstance(val, ast.Call) and _pure_name_call(val, binds, params):
+                # `message_name = mnc(key)`: a key / queue name built once and used twice reads as the call it stands for (the name constructors are pure)
+                if not any(isinstance(x, ast.Name) and x.id == tg and id(x) in in_nested for nf in nested for x in ast.walk(nf)):
+                    aliases[tg] = val
+                    alias_stmts.add(id(st))
+                continue
             if tg is None or binds.get(tg) != 1 or tg in params or not isinstance(val, ast.Attribute):
                 continue
             root, depth = chain_root(val)
             external = root is not None and root in f.module.imports and not any(
                 f.module.imports[root] == mn or f.module.imports[root].startswith(mn + ".") or mn.startswith(f.module.imports[root] + ".") for mn in prog.modules)
-            if root is None or depth == 0 or (root not in ("self", "cls") and root not in params and not external) or binds.get(root, 0) > 0:
+            constant_root = root is not None and root in f.module.imports and root.isupper()  # `match = VALID_NAME.fullmatch`: a bound method of an imported module constant
+            if root is None or depth == 0 or (root not in ("self", "cls") and root not in params and not external and not constant_root) or binds.get(root, 0) > 0:
                 continue
             txt = ast.unparse(val)
             if any(txt == s or txt.startswith(s + ".") for s in stored_chains):
@@ -1048,6 +1081,27 @@ def inline_attribute_aliases(prog: "Program") -> list[str]:
         ast.fix_missing_locations(fn)
         done.extend(f"{f.short()}.{a}" for a in aliases)
     return sorted(done)
+
+
+def see_through_shield(tree: ast.AST) -> list[tuple[int, str]]:
+    """`asyncio.shield(<call>)` is read as `<call>` (the inner operation still happens; resolution and flow rules keep seeing it). What was shielded is recorded: a shielded
+    operation does NOT stop when its awaiter is cancelled, which the rules that argue about cancellation (shared.no_shield) report where it matters."""
+    out: list[tuple[int, str]] = []
+
+    class T(ast.NodeTransformer):
+        def visit_Call(self, node):
+            self.generic_visit(node)
+            d = node.func
+            name = d.attr if isinstance(d, ast.Attribute) else d.id if isinstance(d, ast.Name) else None
+            if name == "shield" and len(node.args) == 1 and not node.keywords and isinstance(node.args[0], ast.Call):
+                inner = node.args[0]
+                inner._shielded = True  # type: ignore[attr-defined]
+                out.append((node.lineno, ast.unparse(inner)[:80]))
+                return ast.copy_location(inner, node)
+            return node
+
+    T().visit(tree)
+    return out
 
 
 def normalise_get_default(tree: ast.AST) -> int:
